@@ -6,7 +6,7 @@ import (
 
 	"gonum.org/v1/gonum/stat/combin"
 
-	"verif/harness/internal/core"
+	"gonum.org/v1/gonum/verifharness/internal/core"
 )
 
 func init() {
